@@ -252,6 +252,12 @@ func (rc *SRespCodec) MSet(f *Frag, sfd int) error {
 }
 
 func (rc *SRespCodec) Del(f *Frag, sfd int) error {
+	// anything but an integer (an error reply) fails the whole request; it is not a count
+	if f.Type != codec.RspInteger {
+		f.Done = true
+		f.Error = codec.ErrUnKnown
+		return nil
+	}
 	line := f.RspBody[1 : len(f.RspBody)-2]
 	n, _ := parseLen(line)
 	f.Peer.DelNum += n
